@@ -365,6 +365,11 @@ impl<W: Write + io::Seek> ZipWriter<W> {
     {
         self.finish_file()?;
 
+        let name: String = name.into();
+        if name.len() > spec::ZIP64_ENTRY_THR {
+            return Err(ZipError::InvalidArchive("File name is too long"));
+        }
+
         let raw_values = raw_values.unwrap_or(ZipRawValues {
             crc32: 0,
             compressed_size: 0,
@@ -387,7 +392,7 @@ impl<W: Write + io::Seek> ZipWriter<W> {
                 crc32: raw_values.crc32,
                 compressed_size: raw_values.compressed_size,
                 uncompressed_size: raw_values.uncompressed_size,
-                file_name: name.into(),
+                file_name: name,
                 file_name_raw: Vec::new(), // Never used for saving
                 extra_field: Vec::new(),
                 file_comment: String::new(),
@@ -830,6 +835,9 @@ impl<W: Write + io::Seek> ZipWriter<W> {
     }
 
     fn finalize(&mut self) -> ZipResult<()> {
+        if self.comment.len() > spec::ZIP64_ENTRY_THR {
+            return Err(ZipError::InvalidArchive("Archive comment is too long"));
+        }
         self.finish_file()?;
 
         {
@@ -1120,7 +1128,13 @@ fn write_local_file_header<T: Write>(writer: &mut T, file: &ZipFileData) -> ZipR
         writer.write_u32::<LittleEndian>(file.uncompressed_size as u32)?;
     }
     // file name length
-    writer.write_u16::<LittleEndian>(file.file_name.as_bytes().len() as u16)?;
+    let file_name_length: u16 = file
+        .file_name
+        .as_bytes()
+        .len()
+        .try_into()
+        .map_err(|_| ZipError::InvalidArchive("File name is too long"))?;
+    writer.write_u16::<LittleEndian>(file_name_length)?;
     // extra field length
     let extra_field_length = if file.large_file { 20 } else { 0 } + file.extra_field.len() as u16;
     writer.write_u16::<LittleEndian>(extra_field_length)?;
@@ -1191,7 +1205,13 @@ fn write_central_directory_header<T: Write>(writer: &mut T, file: &ZipFileData) 
     // uncompressed size
     writer.write_u32::<LittleEndian>(file.uncompressed_size.min(spec::ZIP64_BYTES_THR) as u32)?;
     // file name length
-    writer.write_u16::<LittleEndian>(file.file_name.as_bytes().len() as u16)?;
+    let file_name_length: u16 = file
+        .file_name
+        .as_bytes()
+        .len()
+        .try_into()
+        .map_err(|_| ZipError::InvalidArchive("File name is too long"))?;
+    writer.write_u16::<LittleEndian>(file_name_length)?;
     // extra field length
     writer.write_u16::<LittleEndian>(zip64_extra_field_length + file.extra_field.len() as u16)?;
     // file comment length
